@@ -42,11 +42,6 @@ func (e redirectErr) Error() string {
 	return fmt.Sprintf("redirect to %v", e.reqTarget.URL)
 }
 
-type teeReadCloser struct {
-	io.Reader
-	io.Closer
-}
-
 // NewClient returns a SPNEGO enabled HTTP client.
 // Be careful when passing in the *http.Client if it is beginning reused in multiple calls to this function.
 // Ensure reuse of the provided *http.Client is for the same user as a session cookie may have been added to
@@ -80,12 +75,17 @@ func NewClient(krb5Cl *client.Client, httpCl *http.Client, spn string) *Client {
 
 // Do is the SPNEGO enabled HTTP client's equivalent of the http.Client's Do method.
 func (c *Client) Do(req *http.Request) (resp *http.Response, err error) {
-	var body bytes.Buffer
+	var body []byte
 	if req.Body != nil {
-		// Use a tee reader to capture any body sent in case we have to replay it again
-		teeR := io.TeeReader(req.Body, &body)
-		teeRC := teeReadCloser{teeR, req.Body}
-		req.Body = teeRC
+		// Capture the whole body before the first attempt in case it has to be sent again: a server may
+		// answer (with a challenge or a redirect) before the upload is complete, and what has been read by
+		// then is not all of it.
+		body, err = io.ReadAll(req.Body)
+		req.Body.Close()
+		if err != nil {
+			return nil, err
+		}
+		req.Body = io.NopCloser(bytes.NewReader(body))
 	}
 	resp, err = c.Client.Do(req)
 	if err != nil {
@@ -99,7 +99,7 @@ func (c *Client) Do(req *http.Request) (resp *http.Response, err error) {
 				}
 				if req.Body != nil {
 					// Refresh the body reader so the body can be sent again
-					e.reqTarget.Body = io.NopCloser(&body)
+					e.reqTarget.Body = io.NopCloser(bytes.NewReader(body))
 				}
 				return c.Do(e.reqTarget)
 			}
@@ -118,7 +118,7 @@ func (c *Client) Do(req *http.Request) (resp *http.Response, err error) {
 		}
 		if req.Body != nil {
 			// Refresh the body reader so the body can be sent again
-			req.Body = io.NopCloser(&body)
+			req.Body = io.NopCloser(bytes.NewReader(body))
 		}
 		io.Copy(io.Discard, resp.Body)
 		resp.Body.Close()
